@@ -96,7 +96,7 @@ pub struct ArmOpts {
 pub fn generate(arm: &str, seed: u64, o: ArmOpts) -> Scenario {
     let mut rng = Rng::new(seed);
     let mut trng = rng.fork(1);
-    let table = Table::generate(&mut trng, GenOpts { depth_free: o.depth_free, long_arcs: o.long_arcs, max_n: 8, max_s: 6, reconverge: o.reconverge, dom_friendly: o.force_dom == Some(true) || rng.chance(1, 3), few_dead_arcs: rng.chance(1, 3), knapsack_quarters: o.knapsack_quarters });
+    let table = Table::generate(&mut trng, GenOpts { depth_free: o.depth_free, long_arcs: o.long_arcs, max_n: 8, max_s: 6, reconverge: o.reconverge, dom_friendly: o.force_dom == Some(true) || rng.chance(1, 3), few_dead_arcs: rng.chance(1, 3), knapsack_quarters: o.knapsack_quarters, top_merge_quarters: 1 });
     let dd = if o.force_pooled { Dd::Pooled } else { *rng.pick(&[Dd::Lel, Dd::Fc, Dd::Pooled]) };
     let cache = o.force_cache.unwrap_or_else(|| rng.chance(1, 2));
     let depth_free = !table.depth_in_state;
